@@ -73,12 +73,34 @@ def spec_eval(o):
     return out
 
 
+class FnObj:
+    """the defining function as a callable *object* with mutable state (`gain`): a new signal made from an operand must own
+    its own copy of it (copies, re-gridded signals, sums and products share no mutable state with their operands)"""
+    registry = []
+
+    def __init__(self, kind, scale=1.0):
+        self.kind, self.scale, self.gain = kind, scale, 1.0
+        self.f = _fn(kind, scale)
+        FnObj.registry.append(self)
+
+    def __call__(self, t):
+        return self.gain * self.f(t)
+
+    def __deepcopy__(self, memo):
+        clone = FnObj(self.kind, self.scale)
+        clone.gain = self.gain
+        return clone
+
+
+DEC = 0.2          # time unit of the decimal replica: one tick = 0.1 (not a binary fraction)
+
+
 class Slot:
-    def __init__(self, real, noise, pulse):
-        self.real, self.noise, self.pulse = real, noise, pulse
+    def __init__(self, real, noise, pulse, dec=None):
+        self.real, self.noise, self.pulse, self.dec = real, noise, pulse, dec
 
     def each(self):
-        return ((self.real, 1.0), (self.noise, NS), (self.pulse, NS))
+        return ((self.real, 1.0), (self.noise, NS), (self.pulse, NS), (self.dec, DEC))
 
 
 class FuncSignalDriver:
@@ -99,12 +121,16 @@ class FuncSignalDriver:
     def reset(self, st):
         self.objs = []
         self.particle = None
+        FnObj.registry = []
 
     def _new(self, g, fn):
         t = ticks(g)
-        real = FunctionSignal(t, _fn(fn))
+        real = FunctionSignal(t, FnObj(fn))
+        # the same definition on a grid whose step is a decimal fraction: buffer sample counts (lead / dt) then live on the
+        # edge of floating-point division; only continuous functions, so that a rounding of the argument cannot flip a value
+        dec = FunctionSignal(ticks(g, DEC), _fn(fn, DEC)) if fn in ('lin', 'tri') else None
         if not self.shadows:
-            return Slot(real, None, None)
+            return Slot(real, None, None, dec)
         np.random.seed(len(g) * 7 + g[0] % 5 + 1)
         noise = FullThermalNoise(t * NS, f_band=(1e8, 6e8), rms_voltage=1.0)
         if self.particle is None:
@@ -113,7 +139,7 @@ class FuncSignalDriver:
             self.particle.interaction.had_frac = 0.4
         pulse = pyrex.AskaryanSignal(t * NS, self.particle, viewing_angle=0.95, viewing_distance=100.0,
                                      t0=float(t[len(t) // 2] * NS))
-        return Slot(real, noise, pulse)
+        return Slot(real, noise, pulse, dec)
 
     def step(self, label, st):
         last = st['last']
@@ -122,7 +148,7 @@ class FuncSignalDriver:
         if op == 'New':
             self.objs.append(self._new(last['g'], last['fn']))
         elif op == 'Read':
-            self.read(i, last['res'], 'objs[%d].values' % (i + 1))
+            self.read(i, last['res'], 'objs[%d].values' % (i + 1), st['objs'][i])
         elif op in ('Shift', 'IMul', 'IDiv', 'Filter', 'SetBuffers', 'SetBuffersFail', 'Resample', 'AssignTimes', 'AugTimes'):
             for o, sc in self.objs[i].each():
                 if o is None:
@@ -161,6 +187,7 @@ class FuncSignalDriver:
                     o.times += last['d'] / 2.0 * sc
         elif op in ('Copy', 'Mul', 'WithTimes', 'Add'):
             new = []
+            before = list(FnObj.registry)          # every function object that exists before the operation
             for k, (o, sc) in enumerate(self.objs[i].each()):
                 if o is None:
                     new.append(None)
@@ -171,8 +198,26 @@ class FuncSignalDriver:
                     r = o * float(last['k'])
                 elif op == 'WithTimes':
                     r = o.with_times(ticks(last['g']) * sc)
+                    # a window cut out of the parent's own grid (also one sharing an edge with it) shows the parent's values:
+                    # the buffers it is given make its buffer-extended grid the parent's grid.  Stated for parents without
+                    # buffers of their own (then the two extended grids are the same); compared on copies, so that no cache of
+                    # the objects under test is touched
+                    pg, cg = list(st['objs'][i]['g']), list(last['g'])
+                    if all(c['lead'] == 0 and c['trail'] == 0 for c in st['objs'][i]['comps']) and len(cg) <= len(pg):
+                        for k0 in range(len(pg) - len(cg) + 1):
+                            if pg[k0:k0 + len(cg)] == cg:
+                                pv = np.asarray(o.copy().values, dtype=float)[k0:k0 + len(cg)]
+                                cv = np.asarray(r.copy().values, dtype=float)
+                                scale_ = max(float(np.max(np.abs(pv), initial=0)), 1e-300)
+                                if not np.allclose(cv, pv, rtol=0, atol=1e-9 * scale_ + 1e-12):
+                                    raise Divergence('with_times onto samples %d..%d of the own grid (replica %d): values vs the same samples of the original' % (
+                                        k0, k0 + len(cg) - 1, k), list(map(float, pv)), list(map(float, cv)))
+                                break
                 elif op == 'Add':
                     other = list(self.objs[last['b'] - 1].each())[k][0]
+                    if other is None:
+                        new.append(None)
+                        continue
                     o_, other_ = o, other
                     # value types of the shadows differ (voltage / field): add with undefined types
                     r = _add_untyped(o_, other_)
@@ -180,6 +225,18 @@ class FuncSignalDriver:
                     raise Divergence(op, 'a new object', 'the operand itself')
                 new.append(r)
             self.objs.append(Slot(*new))
+            # the new signal owns its functions: changing the state of every function object that existed before leaves it alone
+            made = new[0]
+            ref = np.asarray(made.copy().values, dtype=float)
+            for f_ in before:
+                f_.gain = 3.0
+            try:
+                now = np.asarray(made.copy().values, dtype=float)
+            finally:
+                for f_ in before:
+                    f_.gain = 1.0
+            if not np.allclose(now, ref, rtol=0, atol=TOL * (1 + float(np.max(np.abs(ref), initial=0)))):
+                raise Divergence('result of %s after the function objects of its operands were changed' % op, list(map(float, ref)), list(map(float, now)))
         else:
             raise Divergence('op', 'known op', op)
         # definition-level observables that do not touch the cache
@@ -188,8 +245,14 @@ class FuncSignalDriver:
             if len(slot.real.times) != len(et) or not np.allclose(slot.real.times, et, rtol=0, atol=TOL):
                 raise Divergence('objs[%d].times' % (k + 1), et, list(map(float, slot.real.times)))
 
-    def read(self, i, expected, where):
+    def read(self, i, expected, where, so=None):
         slot = self.objs[i]
+        if so is not None and slot.dec is not None and all(c['nf'] == 0 for c in so['comps']):
+            # without filters the values are the function on the grid, whatever the buffers are
+            vd = np.asarray(slot.dec.values, dtype=float)
+            ed = np.array([float(x) for x in expected])
+            if len(vd) != len(ed) or not np.allclose(vd, ed, rtol=0, atol=1e-6 * (1 + float(np.max(np.abs(ed), initial=0)))):
+                raise Divergence(where + ' (replica on a grid of step 0.1, no filters)', list(map(float, ed)), list(map(float, vd)))
         v = np.asarray(slot.real.values, dtype=float)
         exp = [float(x) for x in expected]
         self.reads += 1
@@ -210,7 +273,7 @@ class FuncSignalDriver:
 
     def finish(self, st):
         for i, so in enumerate(st['objs']):
-            self.read(i, spec_eval(so), 'final objs[%d].values' % (i + 1))
+            self.read(i, spec_eval(so), 'final objs[%d].values' % (i + 1), so)
 
 
 def _add_untyped(a, b):
